@@ -398,6 +398,45 @@ def _run_normalize(case, ck):
                             "%s: differs from the unscaled image's result "
                             "by %.3g" % (what, e))
                 acc.append(np.round(a1, 9))
+    # images with more than one plane or colour channel: the mean over ALL
+    # pixels is 1
+    from holopy.core.metadata import data_grid
+    for tag, shape, kw in (
+            ("2ch", (nx, ny, 2), {"extra_dims": {"illumination":
+                                                 ["red", "green"]}}),
+            ("3ch", (nx, ny, 3), {"extra_dims": {"illumination":
+                                                 ["red", "green", "blue"]}}),
+            ("2planes", (2, nx, ny), {"z": [0.0, 1.0]}),
+            ("4planes", (4, nx, ny), {"z": [0.0, 1.0, 2.0, 3.5]})):
+        n = int(np.prod(shape))
+        v = 0.7 + 0.3 * np.arange(n, dtype=float).reshape(shape) + \
+            0.011 * (np.arange(n).reshape(shape) % 7)
+        try:
+            im = data_grid(v, spacing=0.1, medium_index=1.33, name="multi",
+                           **kw)
+        except Exception:
+            continue
+        what = "normalize(%s image %r)" % (tag, shape)
+        snap = _Snap(im)
+        n1 = _t(what, normalize, im)
+        ck.trans += 1
+        a1 = np.asarray(n1.values, dtype=float)
+        e = abs(_fmean(a1) - 1.0) / EPS / _cond(v)
+        ck.metric("normalize-mean-ulp-per-cond", e)
+        ck.true("normalize-mean-one",
+                a1.shape == np.asarray(im.values).shape and
+                e <= TOLERANCES["normalize-mean-ulp-per-cond"],
+                "%s: mean = %r" % (what, _fmean(a1)))
+        n2 = _t(what + " twice", normalize, n1)
+        ck.trans += 1
+        e = float(np.abs(np.asarray(n2.values) - a1).max() /
+                  np.abs(a1).max() / EPS / _cond(v))
+        ck.true("normalize-idempotent",
+                e <= TOLERANCES["normalize-idempotent-ulp-per-cond"],
+                "%s: not idempotent (%.3g ulp/cond)" % (what, e))
+        _meta(ck, "normalize", n1, snap, what, coords=tuple(
+            c for c in ("x", "y", "z") if c in im.coords))
+        acc.append(np.round(a1.ravel()[:16], 9))
     return digest(*acc)
 
 
